@@ -308,6 +308,14 @@ func (env *specEnv) evalField(e *SExpr) sval {
 	if base.typ == nil {
 		env.fail(e, "field of untyped value")
 	}
+	if key, so, ok := fv.ghostFieldKey(base.typ, e.Name); ok {
+		fv.instFrames(key, base.t)
+		var ty types.Type
+		if so == smt.Bool {
+			ty = types.Typ[types.Bool]
+		}
+		return sval{smt.Select(fv.heapGet(env.cur, key), base.t), ty}
+	}
 	st, isPtr := derefType(base.typ)
 	// type invariant reference a.wf
 	if n, ok := st.(*types.Named); ok {
@@ -446,7 +454,9 @@ func (env *specEnv) evalCall(e *SExpr) sval {
 			case *types.Map:
 				_, _, ln := fv.mapKeys(u)
 				fv.instFrames(ln, v.t)
-				return mathVal(smt.Ite(smt.Eq(v.t, smt.IntLit(0)), smt.IntLit(0), smt.Select(fv.heapGet(env.cur, ln), v.t)))
+				c := smt.Select(fv.heapGet(env.cur, ln), v.t)
+				fv.assumeGlobal(smt.Ge(c, smt.IntLit(0)))
+				return mathVal(smt.Ite(smt.Eq(v.t, smt.IntLit(0)), smt.IntLit(0), c))
 			case *types.Array:
 				return mathVal(smt.IntLit(u.Len()))
 			case *types.Basic:
@@ -462,7 +472,9 @@ func (env *specEnv) evalCall(e *SExpr) sval {
 		mt := v.typ.Underlying().(*types.Map)
 		_, _, ln := fv.mapKeys(mt)
 		fv.instFrames(ln, v.t)
-		return mathVal(smt.Select(fv.heapGet(env.cur, ln), v.t))
+		c := smt.Select(fv.heapGet(env.cur, ln), v.t)
+		fv.assumeGlobal(smt.Ge(c, smt.IntLit(0))) // a map never has a negative number of entries
+		return mathVal(c)
 	case "dom", "vals":
 		v := env.eval(args[0])
 		mt, ok := v.typ.Underlying().(*types.Map)
@@ -763,6 +775,7 @@ func (fv *funcVerifier) finishExits() {
 		}
 		env.vars[names[i]] = sval{t, rv.Type()}
 	}
+	fv.applyGhostExit(exit, env, fv.spec)
 	for _, e := range fv.spec.Ensures {
 		fv.assert(exit, "ensures", e.String(), fv.fi.Decl.End(), env.evalBool(e))
 	}
@@ -779,6 +792,8 @@ type modTarget struct {
 	// slice contents target (modifies b where b is a slice): memKey/arr set, field nil
 	memKey string
 	arr    smt.Term
+	// ghost field target
+	ghostKey string
 }
 
 func (env *specEnv) modTargets(list []*SExpr) []modTarget {
@@ -796,6 +811,10 @@ func (env *specEnv) modTargets(list []*SExpr) []modTarget {
 			env.fail(e, "modifies target must be x.f or a slice (its elements)")
 		}
 		base := env.eval(e.Args[0])
+		if gk, _, ok := fv.ghostFieldKey(base.typ, e.Name); ok {
+			out = append(out, modTarget{ghostKey: gk, ref: base.t})
+			continue
+		}
 		st, isPtr := derefType(base.typ)
 		if !isPtr {
 			env.fail(e, "modifies target base must be a pointer")
@@ -823,6 +842,11 @@ func (fv *funcVerifier) applyModifies(st *State, env *specEnv, sp *FuncSpec) {
 	tgts := env.modTargets(sp.Modifies)
 	fv.mut++
 	for _, t := range tgts {
+		if t.ghostKey != "" {
+			h := fv.heapGet(st, t.ghostKey)
+			fv.heapSet(st, t.ghostKey, smt.Store(h, t.ref, fv.c.Fresh("hv", smt.ElemSort(h.Sort))))
+			continue
+		}
 		if t.field == nil {
 			h := fv.heapGet(st, t.memKey)
 			fv.heapSet(st, t.memKey, smt.Store(h, t.arr, fv.c.Fresh("hv", smt.ElemSort(h.Sort))))
@@ -895,6 +919,10 @@ func (fv *funcVerifier) checkFrame(exit *State, env *specEnv) {
 	}
 	var refs []refKey
 	for _, t := range tgts {
+		if t.ghostKey != "" {
+			refs = append(refs, refKey{t.ghostKey, t.ref})
+			continue
+		}
 		if t.field == nil {
 			refs = append(refs, refKey{t.memKey, t.arr})
 			continue
@@ -912,7 +940,19 @@ func (fv *funcVerifier) checkFrame(exit *State, env *specEnv) {
 			}
 		}
 	}
+	for _, g := range fv.spec.GhostExit {
+		if g.Target.Op == "field" {
+			base := entryEnv.eval(g.Target.Args[0])
+			if gk, _, ok := fv.ghostFieldKey(base.typ, g.Target.Name); ok {
+				refs = append(refs, refKey{gk, base.t})
+			}
+		}
+	}
 	for _, lh := range fv.lockHavocs {
+		if lh.ghostKey != "" {
+			refs = append(refs, refKey{lh.ghostKey, lh.owner})
+			continue
+		}
 		for _, v := range []smt.Term{lh.old, lh.fresh} {
 			switch u := lh.typ.Underlying().(type) {
 			case *types.Map:
@@ -1026,19 +1066,32 @@ func (fv *funcVerifier) evalSpecIn(st, pre *State, e *SExpr) smt.Term {
 
 func (fv *funcVerifier) callWithSpec(st *State, call *ast.CallExpr, fn *types.Func, sp *FuncSpec, recv smt.Term, hasRecv bool, args []smt.Term) []smt.Term {
 	sig := fn.Type().(*types.Signature)
-	pre := st.clone()
-	env := &specEnv{fv: fv, cur: pre, old: pre, vars: map[string]sval{}, pkg: fn.Pkg()}
-	if hasRecv && sig.Recv().Name() != "" {
-		env.vars[sig.Recv().Name()] = sval{recv, sig.Recv().Type()}
+	var names []string
+	for i := 0; i < sig.Params().Len(); i++ {
+		names = append(names, sig.Params().At(i).Name())
 	}
-	for i := 0; i < sig.Params().Len() && i < len(args); i++ {
-		p := sig.Params().At(i)
-		if p.Name() != "" && p.Name() != "_" {
-			env.vars[p.Name()] = sval{args[i], p.Type()}
+	recvName := ""
+	var recvType types.Type
+	if hasRecv && sig.Recv() != nil {
+		recvName, recvType = sig.Recv().Name(), sig.Recv().Type()
+	}
+	return fv.callWithSpecSig(st, call, sig, names, FuncKey(fn), fn.Name(), fn.Pkg(), sp, recv, recvName, recvType, args)
+}
+
+// callWithSpecSig applies a contract at a call site given the callee signature and parameter names.
+func (fv *funcVerifier) callWithSpecSig(st *State, call *ast.CallExpr, sig *types.Signature, pnames []string, key, short string, pkg *types.Package, sp *FuncSpec, recv smt.Term, recvName string, recvType types.Type, args []smt.Term) []smt.Term {
+	pre := st.clone()
+	env := &specEnv{fv: fv, cur: pre, old: pre, vars: map[string]sval{}, pkg: pkg}
+	if recvName != "" && recvName != "_" {
+		env.vars[recvName] = sval{recv, recvType}
+	}
+	for i := 0; i < sig.Params().Len() && i < len(args) && i < len(pnames); i++ {
+		if pnames[i] != "" && pnames[i] != "_" {
+			env.vars[pnames[i]] = sval{args[i], sig.Params().At(i).Type()}
 		}
 	}
 	for _, r := range sp.Requires {
-		fv.assert(st, "requires", FuncKey(fn)+":"+r.String(), call.Pos(), env.evalBool(r))
+		fv.assert(st, "requires", key+":"+r.String(), call.Pos(), env.evalBool(r))
 	}
 	fv.applyModifies(st, env, sp)
 	post := *env
@@ -1051,7 +1104,7 @@ func (fv *funcVerifier) callWithSpec(st *State, call *ast.CallExpr, fn *types.Fu
 	var results []smt.Term
 	for i := 0; i < sig.Results().Len(); i++ {
 		rt := sig.Results().At(i).Type()
-		rv := fv.fresh(st, "res_"+fn.Name(), rt)
+		rv := fv.fresh(st, "res_"+short, rt)
 		results = append(results, rv)
 		post.vars[names[i]] = sval{rv, rt}
 	}
@@ -1067,6 +1120,7 @@ func (fv *funcVerifier) callWithSpec(st *State, call *ast.CallExpr, fn *types.Fu
 			post.vars[g.Name] = sval{fv.c.Fresh("cg_"+g.Name, so), ty}
 		}
 	}
+	fv.applyGhostExit(st, &post, sp)
 	for _, e := range sp.Ensures {
 		fv.assume(st, post.evalBool(e))
 	}
@@ -1096,8 +1150,89 @@ func (fv *funcVerifier) callIfaceSpec(st *State, call *ast.CallExpr, im *types.F
 	return fv.callWithSpec(st, call, im, sp, recv, true, args), true
 }
 
+// callFuncValueSpec handles x.f(args) where f is a function-typed field with a
+// "functype T.f(params)" contract.
 func (fv *funcVerifier) callFuncValueSpec(st *State, call *ast.CallExpr, args []smt.Term) ([]smt.Term, bool) {
-	return nil, false
+	sel, ok := ast.Unparen(call.Fun).(*ast.SelectorExpr)
+	if !ok {
+		return nil, false
+	}
+	s, ok := fv.info.Selections[sel]
+	if !ok || s.Kind() != types.FieldVal {
+		return nil, false
+	}
+	n, ok := derefNamed(fv.typeOf(sel.X))
+	if !ok || n.Obj().Pkg() == nil {
+		return nil, false
+	}
+	key := ShortPkg(n.Obj().Pkg().Path()) + "." + n.Obj().Name() + "." + sel.Sel.Name
+	sp := fv.prog.Specs.Funcs[key]
+	if sp == nil {
+		return nil, false
+	}
+	sig, ok := fv.typeOf(call.Fun).Underlying().(*types.Signature)
+	if !ok {
+		return nil, false
+	}
+	owner := fv.evalExpr(st, sel.X)
+	return fv.callWithSpecSig(st, call, sig, sp.Params, key, sel.Sel.Name, n.Obj().Pkg(), sp, owner, "self", fv.typeOf(sel.X), args), true
+}
+
+// applyGhostExit performs the ghost field assignments of a contract in state st
+// (callee post-state at a call site, or the merged exit state of the function itself).
+func (fv *funcVerifier) applyGhostExit(st *State, env *specEnv, sp *FuncSpec) {
+	if len(sp.GhostExit) == 0 {
+		return
+	}
+	type upd struct {
+		key string
+		ref smt.Term
+		val smt.Term
+	}
+	var ups []upd
+	for _, g := range sp.GhostExit {
+		if g.Target.Op != "field" {
+			env.fail(g.Target, "ghost_exit target must be x.f")
+		}
+		base := env.eval(g.Target.Args[0])
+		key, so, ok := fv.ghostFieldKey(base.typ, g.Target.Name)
+		if !ok {
+			env.fail(g.Target, "no ghost field %s", g.Target.Name)
+		}
+		v := env.eval(g.E)
+		if v.t.Sort != so {
+			env.fail(g.E, "ghost field %s has sort %s, value has %s", g.Target.Name, so, v.t.Sort)
+		}
+		ups = append(ups, upd{key, base.t, fv.c.Let("gx_"+g.Target.Name, v.t)})
+	}
+	fv.mut++
+	for _, u := range ups { // simultaneous assignment: all values were evaluated first
+		fv.heapSet(st, u.key, smt.Store(fv.heapGet(st, u.key), u.ref, u.val))
+	}
+}
+
+// ghostFieldKey returns the heap key and sort of ghost field name of the (pointer to) named type t.
+func (fv *funcVerifier) ghostFieldKey(t types.Type, name string) (string, string, bool) {
+	if t == nil {
+		return "", "", false
+	}
+	n, ok := derefNamed(t)
+	if !ok || n.Obj().Pkg() == nil {
+		return "", "", false
+	}
+	ts := fv.prog.Specs.Types[ShortPkg(n.Obj().Pkg().Path())+"."+n.Obj().Name()]
+	if ts == nil {
+		return "", "", false
+	}
+	tyName, ok := ts.GhostFields[name]
+	if !ok {
+		return "", "", false
+	}
+	env := &specEnv{fv: fv, pkg: n.Obj().Pkg()}
+	so, _ := env.sortOfName(tyName)
+	key := "ghost:" + ShortPkg(n.Obj().Pkg().Path()) + "." + n.Obj().Name() + "." + name
+	fv.regHeap(key, smt.Arr(smt.Int, so))
+	return key, so, true
 }
 
 // lockSpecOp applies the declared lock invariant; false when none is declared.
@@ -1128,6 +1263,12 @@ func (fv *funcVerifier) lockSpecOp(st *State, mu ast.Expr, acquire bool, call *a
 	if acquire {
 		fv.mut++
 		for _, fname := range owned {
+			if gk, gso, ok := fv.ghostFieldKey(ot, fname); ok {
+				h := fv.heapGet(st, gk)
+				fv.heapSet(st, gk, smt.Store(h, owner, fv.c.Fresh("lkg_"+fname, gso)))
+				fv.lockHavocs = append(fv.lockHavocs, lockHavoc{ghostKey: gk, owner: owner})
+				continue
+			}
 			_, f := si.field(fname)
 			if f == nil {
 				fv.unsupported("owns: no field %s in %s", fname, n)
@@ -1136,7 +1277,7 @@ func (fv *funcVerifier) lockSpecOp(st *State, mu ast.Expr, acquire bool, call *a
 			old := lv.load()
 			fv.havocReferent(st, old, f.typ)
 			nv := fv.fresh(st, "lk_"+fname, f.typ)
-			fv.lockHavocs = append(fv.lockHavocs, lockHavoc{fv.so.fieldKey(n, f.name), owner, old, nv, f.typ})
+			fv.lockHavocs = append(fv.lockHavocs, lockHavoc{fieldKey: fv.so.fieldKey(n, f.name), owner: owner, old: old, fresh: nv, typ: f.typ})
 			lv.store(nv)
 		}
 		env := &specEnv{fv: fv, cur: st, old: fv.entry, vars: map[string]sval{}, pkg: n.Obj().Pkg()}
